@@ -1,8 +1,9 @@
 /-
 Driver for the composed TLS export model (TLX/Pipeline.lean inside TLX/MainLoop.lean's `run`), executed with Lean's
 own hash functions (`Crypto.realPrims`) and the toy cipher primitives (`Cipher.Toy.prims`, the twin of
-harness/toy_crypto.py). QUIC datagrams are classified and routed by the main loop but their sessions export nothing
-here (`quicNull`).
+harness/toy_crypto.py). QUIC datagrams go to the composed QUIC export model (TLX/QuicPipeline.lean) with the same hash
+functions (REAL QUIC key derivation), the toy AEAD and the toy header-protection mask of TLX/Drv/Dissect.lean
+(twin: `toy_mask` in harness/q2a_dissect.py).
 
   reset                                   → ok          (forget everything; options back to defaults)
   opt <c 0|1> <g 0|1> <a 0|1> <p a,b,…|-> <m -|bare|a:b,…>   → ok      (-c, -g, -a, -p values, -m absent / bare / values)
@@ -10,11 +11,14 @@ here (`quicNull`).
   nokeyfile                                → ok          (run without -s)
   dsb <hexline> …                          → ok          (a decryption-secrets block at this point of the capture)
   pkt <tag> <tcp|udp|other> <srcip> <sport> <dstip> <dport> <csumok> <seq> <ts> <srcmac> <dstmac> <v6> <payload>  → ok
-  run                                      → frames `ts:srcmac:dstmac:srcip:sport:dstip:dport:v6:flags:seq:ack:payload` joined
-                                             by " ", `empty`, or `err:options`
+  run                                      → frames `l4:ts:srcmac:dstmac:srcip:sport:dstip:dport:v6:flags:seq:ack:payload` joined
+                                             by " ", `empty`, or `err:options`; `l4` = `t` (TCP) | `u` (UDP: flags, seq,
+                                             ack are 0; the TLS model never emits a TCP frame without flags)
 -/
 import TLX.Drv.Core
 import TLX.Pipeline
+import TLX.QuicPipeline
+import TLX.Drv.Dissect
 import TLX.Crypto.Hash
 import TLX.Crypto.Toy
 namespace TLX.Drv.Pipeline
@@ -26,20 +30,13 @@ structure DSt where
   items : List (Item Keylog.Key) := []
   infos : List (Nat × Info) := []
 
-def quicNull : QuicMachine Keylog.Key Unit OutPkt where
-  new _ _ := ()
-  feed _ _ _ _ _ := ()
-  clientCids _ := []
-  serverCids _ := []
-  out _ _ := []
-
 def strOfHex (h : String) : Option (List Nat) := (Bytes.ofHex h).map fun b => b.map (·.toNat)
 
 def keyOfHexLine (h : String) : Option Keylog.Key := (strOfHex h).bind Keylog.keyOfLine
 
 def showPkt (p : OutPkt) : String :=
   let b01 (b : Bool) := if b then "1" else "0"
-  s!"{p.ts}:{Bytes.toHex p.srcMac}:{Bytes.toHex p.dstMac}:{Bytes.toHex p.src.ip}:{p.src.port}:{Bytes.toHex p.dst.ip}:" ++
+  s!"{if p.flags = 0 then "u" else "t"}:{p.ts}:{Bytes.toHex p.srcMac}:{Bytes.toHex p.dstMac}:{Bytes.toHex p.src.ip}:{p.src.port}:{Bytes.toHex p.dst.ip}:" ++
   s!"{p.dst.port}:{b01 p.ipv6}:{p.flags}:{p.seq}:{p.ack}:{Bytes.toHex p.payload}"
 
 def asciiNats (s : String) : List Nat := s.toList.map Char.toNat
@@ -70,7 +67,8 @@ def step (t : DSt) : List String → DSt × String
   | ["run"] =>
     let info : Nat → Info := fun tag => ((t.infos.find? (·.1 == tag)).map (·.2)).getD default
     let TM := tlsMachine Crypto.realPrims Cipher.Toy.prims info
-    match runFrom TM quicNull freshState t.args ⟨t.fileKeys, t.items⟩ with
+    let QM := QuicPipeline.quicMachine Drv.Dissect.toyMask Crypto.realPrims Cipher.Toy.prims info
+    match runFrom TM QM freshState t.args ⟨t.fileKeys, t.items⟩ with
     | .error _ => (t, "err:options")
     | .ok (_, out) => (t, if out.isEmpty then "empty" else " ".intercalate (out.map showPkt))
   | _ => (t, "bad-op")
